@@ -45,6 +45,8 @@ type Profile struct {
 	Unions       bool
 	GRPC         bool
 	Streaming    bool
+	// StreamPercent: share of HTTP methods that are streaming endpoints when Streaming is set (0 = 75)
+	StreamPercent int
 	Files        bool
 	HostileNames bool
 	// HostileFields: attribute names only from the hostile pool (keywords, predeclared
@@ -127,7 +129,7 @@ func Views() Profile {
 // Security is the C06 profile.
 func Security() Profile {
 	return Profile{Name: "security", MaxServices: 2, MaxMethods: 3, MaxFields: 3, Runtime: true,
-		Validations: true, Defaults: true, UserTypes: true, MultiRoute: true, BasePaths: true, Security: true, Errors: true, NoBodyVerbs: true, DualTransport: true}
+		Validations: true, Defaults: true, UserTypes: true, MultiRoute: true, BasePaths: true, Security: true, Errors: true, NoBodyVerbs: true, DualTransport: true, Streaming: true, StreamPercent: 15}
 }
 
 // Response is the C03 profile.
@@ -146,6 +148,13 @@ func Streams() Profile {
 	return Profile{Name: "streams", MaxServices: 2, MaxMethods: 4, MaxFields: 5, Runtime: true, Streaming: true,
 		Validations: true, Defaults: true, UserTypes: true, Aliases: true, Recursive: true, BasePaths: true, MultiRoute: true,
 		Maps: true, Bytes: true, PrimPayloads: true, ResultTypes: true, ParamHeavy: true, NoBodyVerbs: true}
+}
+
+func (p Profile) streamPercent() int {
+	if p.StreamPercent > 0 {
+		return p.StreamPercent
+	}
+	return 75
 }
 
 // G carries the state of one design generation.
